@@ -114,8 +114,13 @@ func c27Fine(t *testing.T, sc c27FineSc, c *vsched.Chooser) (out vsched.Outcome)
 		if s.Deadlock || s.Livelock {
 			v = append(v, vsched.Fail("coalescer-deadlock", "blocked: %v", s.Blocked))
 		}
+		for _, tp := range s.ThreadPanics {
+			v = append(v, vsched.Fail("panic-in-thread", "%s", tp))
+		}
 		if !closeReturned {
-			out.Invalid = "close did not return: " + s.Describe()
+			if len(s.ThreadPanics) == 0 { // a thread panic is a verdict of its own
+				out.Invalid = "close did not return: " + s.Describe()
+			}
 			out.Violations = v
 			return
 		}
